@@ -159,8 +159,9 @@ def gen_model(rng, cfg=None, feats=None):
 
     def cont_spec(is_state, want_log=False):
         log = want_log or rng.random() < 0.12
-        lo_pts = 2 if is_state else 1
+        lo_pts = cfg.get("min_cont_state_pts", 2) if is_state else cfg.get("min_cont_choice_pts", 1)
         hi_pts = cfg["max_cont_state_pts"] if is_state else cfg["max_cont_choice_pts"]
+        hi_pts = max(hi_pts, lo_pts)
         n = int(rng.integers(lo_pts, hi_pts + 1))
         # prefer sizes not used before (unequal sizes)
         for _ in range(4):
@@ -207,7 +208,7 @@ def gen_model(rng, cfg=None, feats=None):
         if not cands:
             break
         sp = cands[int(rng.integers(0, len(cands)))]
-        sp["n"] -= 1
+        sp["n"] -= 1 if sp["n"] <= 40 else max(1, sp["n"] // 8)
 
     spec = dict(states) | dict(choices)
     dS = [k for k, v in states if v["kind"] == "disc"]
